@@ -11,6 +11,8 @@ THEOREMS = [
     "C10.set_nested_error_keeps_data",
     "C10.discard_on_commit_counterexample",
     # part B — the search model (RreModel/C09/Model.lean)
+    "C10.rule_firing_rolls_back",
+    "C10.rule_firing_commit_rolls_back",
     "C10.query_effect",
     "C10.not_provable_restores",
     "C10.query_frames_balanced",
@@ -30,12 +32,30 @@ def pre_lean(ctx):
 
 
 def extra(ctx):
-    """part B on the real code: the C09 generator (every strategy), oracle (iii) — facts restored when not provable,
-    no undo frame left open whatever the answer — evaluated by drv_c09 on the implementation's observations."""
+    """part B on the real code: the C09 generator (every strategy; its last two families — failing first alternative at
+    depth >= 1, non-Set actions — are there for this clause), oracle (iii) — facts restored when not provable, no undo
+    frame left open whatever the answer — evaluated FIRST (`drv_c09 oracle3`) on the implementation's observations.
+    One representative per signature is minimised with the harness's own shrinker."""
     import subprocess, os
     root = os.path.dirname(os.path.dirname(os.path.abspath(__file__)))
     binp = os.path.join(root, "harness", "target", "debug", "c09")
     drv = os.path.join(root, "lean", ".lake", "build", "bin", "drv_c09")
+
+    def run_cases(cases, timeout=300):
+        if not cases:
+            return [], []
+        e = subprocess.run([binp, "exec"], input="\n".join(cases) + "\n", capture_output=True, text=True, timeout=timeout)
+        impl = (e.stdout.split("\n") + [""] * len(cases))[:len(cases)]
+        o = subprocess.run([drv, "oracle3"], input="\n".join(c + " | " + i for c, i in zip(cases, impl)) + "\n",
+                           capture_output=True, text=True, timeout=timeout)
+        return impl, (o.stdout.split("\n") + [""] * len(cases))[:len(cases)]
+
+    def sig_of(i, r):
+        if r.startswith("fail leaked-frames") or r.startswith("fail not-restored") or r.startswith("fail query-panic") \
+                or i.startswith("panic") or not (r.startswith("ok") or r.startswith("fail")):
+            return "oracle:partB:" + (r.split()[1] if r.startswith("fail") else "crash")
+        return None
+
     cases = []
     cdir = os.path.join(root, "corpus", "C09")
     if os.path.isdir(cdir):
@@ -44,24 +64,39 @@ def extra(ctx):
                 cases += [l.rstrip("\n") for l in open(os.path.join(cdir, f)) if l.strip() and not l.startswith("#")]
     g = subprocess.run([binp, "gen", str(ctx.seed + 7), str(N_B[ctx.tier]), ctx.tier], capture_output=True, text=True)
     cases += [l for l in g.stdout.split("\n") if l]
-    e = subprocess.run([binp, "exec"], input="\n".join(cases) + "\n", capture_output=True, text=True)
-    impl = e.stdout.split("\n")[:len(cases)]
-    o = subprocess.run([drv, "oracle"], input="\n".join(c + " | " + i for c, i in zip(cases, impl)) + "\n", capture_output=True, text=True)
-    orc = o.stdout.split("\n")[:len(cases)]
+    impl, orc = run_cases(cases, timeout=1200)
     fails, cov = [], {}
     bad = {}
     failing_goal_with_work = 0
+    hist = {}
     for c, i, r in zip(cases, impl, orc):
         if r.startswith("ok") and "notprovable" in r and "rules_fireable" in r:
             failing_goal_with_work += 1
-        if r.startswith("fail leaked-frames") or r.startswith("fail not-restored") or i.startswith("panic") or not (r.startswith("ok") or r.startswith("fail")):
-            sig = "oracle:partB:" + (r.split()[1] if r.startswith("fail") else "crash")
+            for t in ("act_append", "act_retract", "act_call", "or_or_nonEq", "multi_action_rule", "dfs", "bfs", "ids"):
+                if t in r.split():
+                    hist[t] = hist.get(t, 0) + 1
+        sig = sig_of(i, r)
+        if sig:
             bad.setdefault(sig, []).append({"case": c, "impl": i, "model": "", "oracle": r, "kind": "oracle"})
     for sig, rs in bad.items():
         rs.sort(key=lambda x: len(x["case"]))
-        fails.append((sig, rs[0], len(rs)))
+        rep, budget = rs[0], 300
+        while budget > 0:                      # greedy minimisation: first smaller candidate with the same signature
+            sh = subprocess.run([binp, "shrink"], input=rep["case"] + "\n", capture_output=True, text=True)
+            cands = [l for l in sh.stdout.split("\n") if l and len(l) < len(rep["case"])][:60]
+            if not cands:
+                break
+            budget -= len(cands)
+            ci, co = run_cases(cands)
+            nxt = next(({"case": c, "impl": i, "model": "", "oracle": r, "kind": "oracle"}
+                        for c, i, r in zip(cands, ci, co) if sig_of(i, r) == sig), None)
+            if nxt is None:
+                break
+            rep = nxt
+        fails.append((sig, rep, len(rs)))
     cov["partB_cases"] = len(cases)
     cov["partB_failing_goals_with_fireable_rules"] = failing_goal_with_work
+    cov["partB_failing_goals_with_fireable_rules_by_tag"] = dict(sorted(hist.items()))
     cov["partB_violations"] = sum(len(v) for v in bad.values())
     return fails, cov
 
@@ -76,12 +111,24 @@ RULE = ("part A: cases = corpus + EVERY sequence of length <= 6 over the alphabe
         "store at the matching begin, commit/begin keep the store, no-frame close is a no-op, mutators touch one key) is "
         "evaluated on the implementation's observations. Non-trivial = some rollback closed a frame and changed the store. "
         "part B: corpus/C09 + N_B problems from the C09 generator (every strategy, max_depth 0..6, max_solutions 1/3) run on "
-        "BackwardEngine::query; oracle (iii): not provable => get_all_facts after == before, undo depth after == 0 whatever the answer.")
+        "BackwardEngine::query, plus its two part-B families, each problem under EVERY strategy: (1) N_B/12 'failing first alternative' "
+        "knowledge bases — at depth 1..3 a candidate rule fails after it or its sub-goals wrote to the facts, in each way the DFS "
+        "distinguishes (both conditions provable but the rule proving the second undoes the first through a second assignment / Retract / "
+        "Append, so the retry does not fire; an action fails (Err) on the retry or on the first attempt, before or after another action "
+        "wrote; wrong-value conclusion; underivable second condition; chain cut by max_depth), then a LATER alternative succeeds "
+        "((main || spare) && permit, a second candidate rule for the same sub-goal, (main && permit) || (spare && permit)) and the "
+        "enclosing rule fails on an underivable last conjunct; (2) N_B/8 knowledge bases whose rules carry Append (absent field / "
+        "existing array / non-array value), Retract (absent / present field, the seed fact, a fact derived earlier) and MethodCall "
+        "(absent object, non-object: Err after earlier actions wrote; object: success) actions before / after their Set, on chains "
+        "with an underivable last conjunct, wrong-value rivals that fire at depth 0 (what BFS / iterative reach), rules with no Set at "
+        "all, and random And/Or KBs with random action lists over facts holding arrays and objects. "
+        "Oracle (iii), evaluated first: not provable => get_all_facts after == before, undo depth after == 0 whatever the answer; "
+        "one failing case per signature is minimised with the harness shrinker.")
 TRUSTED = [
     "Lean 4.33 kernel; axioms of every property theorem within {propext, Classical.choice, Quot.sound} (audited each run)",
     "hand-written model RreModel/C10/Model.lean tied to src/engine/facts.rs by the correspondence check only (differential testing)",
     "harness/src/bin/c10.rs, Driver/C10.lean parsing/printing glue, check.py diff; part B: harness/src/bin/c09.rs, Driver/C09.lean",
-    "part B theorems are about the search model RreModel/C09/Model.lean, tied to src/backward/search.rs by the C09 correspondence check",
+    "part B theorems are about the search model RreModel/C09/Model.lean, tied to src/backward/{search,rule_executor}.rs by the C09 correspondence check",
     "hook Facts::verif_undo_depth (cfg rre_verif, read-only) reports the frame depth",
 ]
 ASSUMPTIONS = [
@@ -89,6 +136,9 @@ ASSUMPTIONS = [
     "values in the tie: integers and one-level objects with integer fields (reach every branch of set_nested)",
     "mutators that do NOT record undo information (add_value, add, clear, merge, restore) are outside the property's operation list; "
     "the harness uses add_value only to build the initial store",
+    "part B actions: Set / Append / Retract / MethodCall(setSpeed) with literal arguments (no Value::Expression), arrays of scalars, "
+    "objects with the single key Speed; Log (prints only) and the no-op arms (Custom, agenda, schedule, workflow) are not driven; "
+    "part B observes get_all_facts (values), not the fact_types table (part A does)",
 ]
 
 
@@ -109,7 +159,9 @@ LEVEL_TEXT = ("Lean 4 theorems (kernel-checked, unbounded: every operation seque
               "undo-frame API of Facts after fix F-C10a (merge on commit); tied to src/engine/facts.rs by exhaustive enumeration of "
               "all sequences of length <= 6 over a 7-letter alphabet plus random sequences up to 10, observed after every call, "
               "and by evaluating the same Spec predicate on the implementation's observations. Part B (failed query leaves facts "
-              "untouched) is checked by the C09 harness oracle (iii) on every strategy and proved on the DFS model.")
+              "untouched) is checked by the C09 harness oracle (iii) on every strategy and proved on the search model (DFS, BFS, "
+              "iterative; rules with Set / Append / Retract / MethodCall actions, failing actions included: rule_firing_rolls_back, "
+              "query_effect, not_provable_restores).")
 LEVEL_NOTE = ("Trusted: Lean kernel + {propext, Classical.choice, Quot.sound}; hand-written model tied to the code by differential "
               "testing only; harness/driver glue; hook verif_undo_depth. Pre-fix code (commit discards) violates the theorem: "
               "C10.discard_on_commit_counterexample.")
